@@ -91,6 +91,7 @@ func cmdCheck(args []string) int {
 	solver := fs.String("solver", "", "only this solver (prefix)")
 	overflow := fs.Bool("overflow", true, "generate overflow obligations")
 	known := fs.String("known", "/verif/known_findings.json", "known findings file")
+	propFile := fs.String("properties", "/verif/properties.jsonl", "property list (anchor files decide which checks run a function's obligations)")
 	replays := fs.String("replays", "/verif/replays", "replay directory")
 	level := fs.String("level", "proof", "level recorded in the evidence (proof|other), as claimed in MANIFEST.json")
 	fs.Parse(args)
@@ -120,6 +121,7 @@ func cmdCheck(args []string) int {
 		}
 		return 2
 	}
+	p.loadAnchors(*propFile)
 	tLoad := time.Since(t0).Seconds()
 	for _, f := range loadKnown(*known).Findings {
 		knownObls[f.Obligation] = true
@@ -278,5 +280,54 @@ func (p *Program) contractPropsFull(c *Contract) []string {
 			add(ps)
 		}
 	}
+	add(p.anchorProps(c.Target))
 	return out
+}
+
+// anchorProps: the properties whose anchor files (properties.jsonl, anchors.files) contain the source file of the
+// function with key k. Every obligation of such a function is also run by those properties' checks: a property
+// depends on all of the code it is anchored in, whatever clause a change happens to break first.
+func (p *Program) anchorProps(k string) []string {
+	if len(p.Anchors) == 0 {
+		return nil
+	}
+	fn := p.Funcs[k]
+	if fn == nil {
+		return nil
+	}
+	for fn.Parent() != nil {
+		fn = fn.Parent()
+	}
+	if !fn.Pos().IsValid() {
+		return nil
+	}
+	file := p.SSA.Fset.Position(fn.Pos()).Filename
+	rel := strings.TrimPrefix(strings.TrimPrefix(file, p.Repo), "/")
+	return p.Anchors[rel]
+}
+
+// loadAnchors reads the anchor files of every property from the (fixed) property list
+func (p *Program) loadAnchors(path string) {
+	p.Anchors = map[string][]string{}
+	b, err := os.ReadFile(path)
+	if err != nil {
+		return
+	}
+	for _, line := range strings.Split(string(b), "\n") {
+		if strings.TrimSpace(line) == "" {
+			continue
+		}
+		var pr struct {
+			ID      string `json:"id"`
+			Anchors struct {
+				Files []string `json:"files"`
+			} `json:"anchors"`
+		}
+		if json.Unmarshal([]byte(line), &pr) != nil {
+			continue
+		}
+		for _, f := range pr.Anchors.Files {
+			p.Anchors[f] = append(p.Anchors[f], pr.ID)
+		}
+	}
 }
